@@ -9,9 +9,14 @@ Anchors
   uncaught exception (traceback on stderr, status 1) this is the `error` constructor of
   `Except`: nothing after the detection site runs.
 * `flowparser.py` `_parse_block` 381-437 / `_is_end_of_block` 439-457 (block structure),
-  `_parse_row`, `_get_row_action`, `_get_row_node`, `_get_node_group_from_edge`,
-  `_parse_goto_row` (row level detection sites).
-* `contentindexparser.py` `__init__`, `_process_content_index_table`, `_process_data_sheet`,
+  `_parse_row`, `_get_row_action` (dispatch on the row type: "Unknown operation set_contact_…",
+  "Row type … not implemented"), `_get_row_node`, `_get_node_group_from_edge`, `_parse_goto_row`
+  (row level detection sites); `RowNodeGroup.add_exit` (outcome words of the edges leaving a
+  start_new_flow / call_webhook / transfer_airtime row).
+* `flowrowmodel.py` `header_name_to_field_name_with_context`: `row_type_to_main_arg[type]` for
+  the header `message_text` — a `KeyError` of the row parser for every row of unknown type.
+* `contentindexparser.py` `__init__`, `_process_content_index_table` (sheet_name count, then the
+  dispatch on the row type with its "invalid type" branch), `_process_data_sheet`,
   `_get_new_data_sheet`, `parse_all_flows`, `_parse_flow`, `map_template_arguments_to_context`.
 * `actions.py` (640 / empty text), `routers.py` (115), `nodes.py` (HTTP methods),
   `flowrowmodel.py` `list_of_pairs_to_dict`, `containers.py` `_record_uuid`,
@@ -43,6 +48,37 @@ def httpMethods : List Str :=
   ["CONNECT".toList, "DELETE".toList, "GET".toList, "HEAD".toList, "OPTIONS".toList,
    "POST".toList, "PUT".toList]
 def defaultHttpMethod : Str := "POST".toList
+/-- the row types `_process_content_index_table` dispatches on (anything else: "invalid type") -/
+def indexRowTypes : List Str :=
+  ["content_index".toList, "create_campaign".toList, "create_flow".toList, "create_triggers".toList,
+   "data_sheet".toList, "ignore_row".toList, "template_definition".toList]
+/-- keys of `row_type_to_main_arg` (flowrowmodel.py): the row types for which the header
+`message_text` can be mapped to a field at all -/
+def mainArgTypes : List Str :=
+  ["add_contact_urn".toList, "add_to_group".toList, "begin_block".toList, "begin_for".toList,
+   "call_webhook".toList, "end_block".toList, "end_for".toList, "go_to".toList, "hard_exit".toList,
+   "insert_as_block".toList, "loose_exit".toList, "no_op".toList, "remove_from_group".toList,
+   "save_flow_result".toList, "save_value".toList, "send_message".toList, "set_contact_channel".toList,
+   "set_contact_language".toList, "set_contact_name".toList, "set_contact_status".toList,
+   "set_contact_timezone".toList, "split_by_group".toList, "split_by_value".toList,
+   "split_random".toList, "start_new_flow".toList, "transfer_airtime".toList,
+   "wait_for_response".toList]
+/-- `_get_row_action`: the types dispatched by equality (each builds an action) -/
+def actionRowTypes : List Str :=
+  ["add_contact_urn".toList, "add_to_group".toList, "remove_from_group".toList,
+   "save_flow_result".toList, "save_value".toList, "send_message".toList]
+/-- `_get_row_action`: the types that carry no action (`return None`) -/
+def nodeRowTypes : List Str :=
+  ["call_webhook".toList, "split_by_group".toList, "split_by_value".toList, "split_random".toList,
+   "start_new_flow".toList, "transfer_airtime".toList, "wait_for_response".toList]
+def setContactPrefix : Str := "set_contact_".toList
+/-- `property not in [...]` -/
+def contactProperties : List Str :=
+  ["channel".toList, "language".toList, "name".toList, "status".toList, "timezone".toList]
+/-- `RowNodeGroup.add_exit`: the lower-cased conditions an edge leaving a start_new_flow row /
+a call_webhook or transfer_airtime row may carry -/
+def flowOutcomes : List Str := ["complete".toList, "completed".toList, "expired".toList]
+def hookOutcomes : List Str := ["failure".toList, "success".toList]
 /-- `logging.CRITICAL` -/
 def shutdownLevel : Nat := 50
 def shutdownExit : Nat := 1
@@ -95,12 +131,31 @@ inductive Fault where
   | uuidConflict (name : Str)
   | triggerUnknownFlow (name : Str)
   | noContentIndex
+  /-- index row (other than data_sheet) whose `sheet_name` cell has not exactly one name -/
+  | sheetNameCount (t : Str)
+  /-- index row whose type is none of `indexRowTypes`: "invalid type: '<t>'" -/
+  | unknownIndexType (t : Str)
+  /-- flow row whose (trimmed) type cell is no key of `row_type_to_main_arg`, in a sheet that has
+  a `message_text` column: the row parser cannot map that header (`KeyError`) -/
+  | rowTypeWithoutMainArg (t : Str)
+  /-- "Unknown operation set_contact_<p>." -/
+  | unknownContactProperty (p : Str)
+  /-- "Row type <t> not implemented" -/
+  | unknownRowType (t : Str)
+  /-- unconditional edge leaving a start_new_flow row ("EnterFlowNode does not support default
+  exits") -/
+  | noDefaultExitFromFlow
+  /-- edge leaving a start_new_flow row (`flow = true`) with a condition other than
+  Complete(d)/Expired, resp. leaving a call_webhook / transfer_airtime row with a condition
+  other than Success/Failure -/
+  | badOutcomeCondition (flow : Bool)
   deriving DecidableEq, Repr
 
-/-- the log level at which each fault is reported (`none`: exception, not a log record) -/
+/-- how each fault is reported: `true` a `LOGGER.critical` record (the ShutdownHandler exits),
+`false` an uncaught exception -/
 def Fault.viaLog : Fault → Bool
   | .gotoUnknownTarget _ | .missingSheet _ | .missingDataSheet _ | .missingDataRow _
-  | .badMethod | .uuidConflict _ | .triggerUnknownFlow _ => false
+  | .badMethod | .uuidConflict _ | .triggerUnknownFlow _ | .rowTypeWithoutMainArg _ => false
   | _ => true
 
 /-! ## block structure: `_parse_block` / `_is_end_of_block` -/
@@ -199,6 +254,65 @@ def checkEdgeFrom (known : List Str) (src : Str) : Except Fault Unit :=
 def checkGotoTarget (known : List Str) (dst : Str) : Except Fault Unit :=
   if dst ∈ known then .ok () else .error (.gotoUnknownTarget dst)
 
+/-! ## row type: `header_name_to_field_name_with_context`, `_get_row_action` -/
+
+/-- `row_type_to_main_arg[row["type"].strip()]`, evaluated for the header `message_text` of
+EVERY row the sheet parser reads (whatever the cell holds, before `include_if` or the block
+structure are looked at): `some t` = the `KeyError`.  `t` is the trimmed type cell. -/
+def mainArgKeyError (hasMessageText : Bool) (t : Str) : Option Str :=
+  if hasMessageText && !(mainArgTypes.contains t) then some t else none
+
+/-- `str.replace(pat, "")`: every non-overlapping occurrence, left to right (fuel = length) -/
+def removeAllAux (pat : Str) : Nat → Str → Str
+  | 0, s => s
+  | _, [] => []
+  | n + 1, c :: cs =>
+    if pat ≠ [] ∧ pat.isPrefixOf (c :: cs) then removeAllAux pat n ((c :: cs).drop pat.length)
+    else c :: removeAllAux pat n cs
+
+def removeAll (pat s : Str) : Str := removeAllAux pat (s.length + 1) s
+
+/-- the dispatch of `_get_row_action` for the rows `_parse_row` hands it (not hard_exit,
+loose_exit, go_to, no_op, insert_as_block, not a block row): equality chain, then
+`startswith("set_contact_")` with the property test — `replace`, so every occurrence of the
+prefix is removed —, then the action-less types, else "not implemented". -/
+def checkRowType (t : Str) : Except Fault Unit :=
+  if t ∈ actionRowTypes then .ok ()
+  else if setContactPrefix.isPrefixOf t then
+    let p := removeAll setContactPrefix t
+    if p ∈ contactProperties then .ok () else .error (.unknownContactProperty p)
+  else if t ∈ nodeRowTypes then .ok ()
+  else .error (.unknownRowType t)
+
+/-! ## outcome edges: `RowNodeGroup.add_exit` -/
+
+/-- what the exit node of the edge's source row is -/
+inductive SrcKind where
+  /-- start_new_flow (`EnterFlowNode`) -/
+  | enterFlow
+  /-- call_webhook / transfer_airtime -/
+  | hook
+  | other
+  deriving DecidableEq, Repr
+
+/-- `str.lower()` on ASCII (the harness marks other conditions on such edges as outside the model) -/
+def lowerAscii (s : Str) : Str :=
+  s.map (fun c => if 65 ≤ c.toNat ∧ c.toNat ≤ 90 then Char.ofNat (c.toNat + 32) else c)
+
+/-- `add_exit(destination, condition)` up to the point where the source kind is settled.
+`more`: one of condition variable / type / name is given (`condition == Condition()` is
+`value = "" ∧ ¬more`).  The unconditional case comes first: a start_new_flow row has no default
+exit (ValueError → critical), a webhook has; then the outcome words, compared lower-cased. -/
+def checkOutcome (k : SrcKind) (value : Str) (more : Bool) : Except Fault Unit :=
+  match k with
+  | .other => .ok ()
+  | .enterFlow =>
+    if value = [] ∧ more = false then .error .noDefaultExitFromFlow
+    else if lowerAscii value ∈ flowOutcomes then .ok () else .error (.badOutcomeCondition true)
+  | .hook =>
+    if value = [] ∧ more = false then .ok ()
+    else if lowerAscii value ∈ hookOutcomes then .ok () else .error (.badOutcomeCondition false)
+
 /-! ## template arguments: `map_template_arguments_to_context` -/
 
 structure ArgDef where
@@ -260,6 +374,10 @@ inductive Probe0 where
   | gotoTarget (dst : Str)
   | loopVariable (v : List Str)
   | edgeFrom (src : Str)
+  /-- `_get_row_action`'s dispatch on the row type (first thing `_parse_row` does for a plain row) -/
+  | rowType (t : Str)
+  /-- `add_exit` on the source of an edge (after the source was looked up) -/
+  | outcome (k : SrcKind) (value : Str) (more : Bool)
   deriving Repr
 
 /-- `webhook`: the headers are converted first (`_get_row_node`), the method is checked by
@@ -277,6 +395,8 @@ def Probe0.check (known : List Str) : Probe0 → Except Fault Unit
   | .gotoTarget d => checkGotoTarget known d
   | .loopVariable v => checkLoopVariable v
   | .edgeFrom s => checkEdgeFrom known s
+  | .rowType t => checkRowType t
+  | .outcome k v m => checkOutcome k v m
 
 structure Row (P : Type) where
   type : RowType
@@ -287,6 +407,8 @@ structure Row (P : Type) where
   iterEmpty : Bool := false
   /-- detectors of this row in the order the code reaches them -/
   probes : List P := []
+  /-- `mainArgKeyError` of the row: the sheet parser fails on the row before anything looks at it -/
+  keyError : Option Str := none
 
 /-- an active `_parse_block` call: its block type, its `omit_content`, and the row id that
 is registered for the block once it is closed (`append_node_group(new_node_group, row.row_id)`) -/
@@ -313,11 +435,15 @@ def runProbes {P : Type} (chk : List Str → P → Except Fault Unit) (known : L
 when the row terminates the block).  State: the active calls and the keys of
 `row_id_to_nodegroup`.  Rows under `omit_content`, or with a false `include_if`, are only
 scanned for block structure (nested begin rows open omitted blocks); everything else runs
-its detectors first. -/
+its detectors first.  Before any of this the row has been read by the sheet parser
+(`parse_next_row`), which is where a type without main argument raises. -/
 def step {P : Type} (chk : List Str → P → Except Fault Unit)
     (s : List Frame × List Str) (r : Row P) : Except Fault (List Frame × List Str) :=
   let st := s.1
   let known := s.2
+  match r.keyError with
+  | some t => .error (.rowTypeWithoutMainArg t)
+  | none =>
   match isEndOfBlock (top (st.map (·.bt))) (some r.type) with
   | .error f => .error f
   | .ok true =>
@@ -431,6 +557,9 @@ inductive IndexRow where
   | sheetRef (name : Str)
   /-- data_sheet row: operation type, new_name, sources -/
   | dataSheet (op : Str) (newName : Str) (srcs : List DataSource)
+  /-- a row of any other type (`ignore_row`, or a type the dispatch does not know) with the
+  number of names in its `sheet_name` cell -/
+  | other (type : Str) (nSheets : Nat)
   deriving Repr
 
 def knownOps : List Str := ["concat".toList, "filter".toList, "sort".toList]
@@ -452,7 +581,8 @@ def checkSources (sheets : List Str) (hasModule : Bool) (models : List Str) :
 
 /-- `_process_data_sheet`: without operation all sources are concatenated; with one, the
 `new_name` test comes first, filter/sort read only the first source, anything else is
-"Unknown operation". -/
+"Unknown operation".  A row of another type: the `len(row.sheet_name) != 1` test precedes
+the dispatch on the type, whose `else` branch is "invalid type" (no sheet is looked up). -/
 def IndexRow.check (sheets : List Str) (hasModule : Bool) (models : List Str) :
     IndexRow → Except Fault Unit
   | .sheetRef n => if n ∈ sheets then .ok () else .error (.missingSheet n)
@@ -462,6 +592,9 @@ def IndexRow.check (sheets : List Str) (hasModule : Bool) (models : List Str) :
     else if op = "concat".toList then checkSources sheets hasModule models srcs
     else if op ∈ knownOps then checkSources sheets hasModule models (srcs.take 1)
     else .error .unknownOperation
+  | .other t n =>
+    if n ≠ 1 then .error (.sheetNameCount t)
+    else if t ∈ indexRowTypes then .ok () else .error (.unknownIndexType t)
 
 def checkIndex (sheets : List Str) (hasModule : Bool) (models : List Str) :
     List IndexRow → Except Fault Unit
